@@ -496,7 +496,7 @@ def sdss_specobjid(plate, fiber, mjd, run2d, line=None, index=None):
             else:
                 N, M, P = m.groups()
             run2d = np.array([(int(N) - 5)*10000 + int(M) * 100 + int(P)],
-                             dtype=np.uint64)
+                             dtype=np.int64)
     elif isinstance(run2d, int):
         run2d = np.array([run2d])
     if line is None:
